@@ -60,6 +60,16 @@ CLAIMED = {
 }
 
 NA = {
+ "C03": "scalar multiplication = repeated addition needs a discrete-log layer over the C02 contracts (loop invariants over big.Int digit recodings): within the technique's reach but not built in the time available; no check is claimed",
+ "C04": "the property quantifies over goroutine schedules, channel joins and termination of the bucket method: a function-contract verifier for sequential code cannot state it (sub-obligations on bucket formulas are proved under C02)",
+ "C05": "bilinearity and non-degeneracy of the optimal-ate pairing are theorems about divisors; no first-order contract on the Miller loop steps that z3/cvc5 can discharge implies them (tower arithmetic used by the pairing is proved under C06)",
+ "C09": "assembly bodies cannot be lowered by go/ssa; the portable Go variants are proved against the same contracts under C01 (both build configurations) but no differential harness for the assembly paths was built, so the property is not claimed",
+ "C10": "equality with the DFT needs the Cooley-Tukey induction over a goroutine-split recursion; a recursive specification mirroring the code would restate the algorithm, not the property",
+ "C11": "KZG verification reduces to the pairing-check relation (C05, not applicable) over MSM results (C04, not applicable); acceptance-implies-check contracts in the style of C17 were not written in the time available",
+ "C12": "signature verifiers and byte decoders use math/big throughout; the big.Int model was not built, so no contract is claimed",
+ "C13": "ExpandMsgXmd totality and the map-to-curve identities are within reach (loop invariants with SHA-256 uninterpreted; ring-layer identities) but were not brought under contract in the time available",
+ "C18": "purity/repeatability needs inferred frames for every exported entry point and a treatment of goroutines; only the modifies clauses of the functions under contract are checked (reported under the respective properties), which does not carry the property",
+ "C20": "polynomial form dispatch depends on the FFT contract (C10, not applicable); Evaluate / GetCoeff index arithmetic was not brought under contract in the time available (defects seen by reading are listed in DESIGN.md 10.5)",
 }
 
 def main():
